@@ -66,10 +66,10 @@ impl PyMoleculeWrapper {
         }
 
         self.molecule.connectivity.clear();
-        let mut i = 0;
 
         for (k, bond_order) in bond_orders.iter().enumerate() {
-            let j = k % self.molecule.num_atoms();
+            let i = k / self.molecule.num_atoms(); // row
+            let j = k % self.molecule.num_atoms(); // column
 
             if j <= i || bond_order.is_very_close(&0.) {
                 continue; // Only want unique pairs to be added
@@ -79,10 +79,6 @@ impl PyMoleculeWrapper {
             bond.order = BondOrder::from_value(bond_order);
 
             self.molecule.connectivity.bonds.insert(bond);
-
-            if j == 0 {
-                i += 1;
-            }
         }
 
         self.molecule.add_angles();
